@@ -18,6 +18,7 @@ from .. import gen
 from ..ref import midi1
 
 ID = 'C06'
+ANCHORS = ['mido.tokenizer', 'mido.parser']
 LEVEL = 'exploration'
 RULE = ('prefixes = every string of length <= L over the 15-symbol class alphabet (L=3 '
         'quick, 4 thorough) + every proper prefix of the encoding of a boundary message of '
